@@ -1490,14 +1490,18 @@ fn gen_c15(thorough: bool) -> Vec<Scenario> {
         out.push(s);
     }
     // an ask whose future is destroyed by unwinding (a joined branch of the same handler panics)
-    {
+    for callee_dies in [false, true] {
         let mut ids = Ids(0);
-        let slow = MsgSpec::m1(ids.next()).steps(vec![Step::Yield, Step::Yield]);
+        let mut slow = MsgSpec::m1(ids.next()).steps(vec![Step::Yield, Step::Yield]);
+        if callee_dies {
+            // the callee never answers either: nothing but the asker's own clean-up can remove the edge
+            slow = slow.out(Outcome::Panic(6));
+        }
         let go = MsgSpec::m1(ids.next()).steps(vec![Step::JoinAskPanic { slot: REG_BASE + 1, msg: slow }]);
         let c0 = Program::new(vec![(0, 0)], vec![send(SendKind::Tell, 0, go)]);
         let c1 = Program::new(vec![(0, 1)], vec![send(SendKind::Ask, 0, MsgSpec::m1(ids.next()))]);
         n += 1;
-        let mut s = scn(format!("c15-{n}-ask-unwound"), vec![ActorSpec::plain(3), ActorSpec::plain(3)], vec![c0, c1], &["quiet"]);
+        let mut s = scn(format!("c15-{n}-ask-unwound-calleedies{callee_dies}"), vec![ActorSpec::plain(3), ActorSpec::plain(3)], vec![c0, c1], &["quiet"]);
         s.registry = true;
         out.push(s);
     }
